@@ -98,10 +98,13 @@ def prefilled_tables(res, roots, rnd, depth=2):
     return tts
 
 
+THOROUGH = [False]
+
+
 def limit_args(rnd):
     k = rnd.random()
     if k < 0.35:
-        return "depth", f"depth {rnd.choice([0, 1, 1, 2, 2, 3])}", True
+        return "depth", f"depth {rnd.choice([0, 1, 1, 2, 2, 3] if not THOROUGH[0] else [0, 1, 2, 3, 3, 4, 4])}", True
     if k < 0.6:
         return "nodes", f"nodes {rnd.choice([0, 1, 2, 10, 60, 300, 1500])}", True
     if k < 0.8:
@@ -135,14 +138,15 @@ def special_roots(base, rnd):
 
 
 def run_C03(res):
-    g, pl, sp, co = sizes(res, (12, 60, 60, 40), (120, 120, 1500, 600))
+    THOROUGH[0] = res.tier == "thorough"
+    g, pl, sp, co = sizes(res, (12, 60, 60, 40), (500, 120, 4000, 1500))
     rnd = random.Random(res.seed)
     gs = games(res, g, pl, sp, co)
     roots = roots_with_history(res, gs, 3, rnd)
     ok = in_domain([p for p, _ in roots])
     roots = [r for r, o in zip(roots, ok) if o]
     rnd.shuffle(roots)
-    roots = roots[: (140 if res.tier == "quick" else 2500)]
+    roots = roots[: (140 if res.tier == "quick" else 8000)]
     spec = special_roots(roots[: len(roots) // 3], rnd)
     res.coverage["rule"] = ("roots sampled from model-side games (with their real key histories), constructed positions and /repo's test FENs; limits: depth 0..3, "
                             "nodes 0..1500, movetime 0..10 ms, clocks 0..200 ms with/without movestogo; tables fresh or left by earlier real searches of the root, a "
@@ -226,14 +230,14 @@ def match_F2(f):
 
 # ------------------------------------------------------------------ C13 / C14
 def run_C13(res):
-    g, pl, sp, co = sizes(res, (10, 60, 50, 30), (100, 120, 1200, 500))
+    g, pl, sp, co = sizes(res, (10, 60, 50, 30), (400, 120, 3000, 1200))
     rnd = random.Random(res.seed)
     gs = games(res, g, pl, sp, co)
     roots = roots_with_history(res, gs, 3, rnd)
     ok = in_domain([p for p, _ in roots])
     roots = [r for r, o in zip(roots, ok) if o]
     rnd.shuffle(roots)
-    roots = roots[: (100 if res.tier == "quick" else 2000)]
+    roots = roots[: (100 if res.tier == "quick" else 5000)]
     res.coverage["rule"] = ("every search is run twice by the real driver from equal initial state (position, history, table image) and once by the Lean model: "
                             "history vector and position unchanged afterwards (compared inside the harness), identical best move and identical info stream "
                             "(depth, seldepth, score, nodes, pv, hashfull) and final table image; limits depth 1..4, nodes; also time limits for the unchanged-state clause")
@@ -247,7 +251,7 @@ def run_C13(res):
     for (p, h), tt in zip(roots, tts):
         k = rnd.random()
         if k < 0.5:
-            a, d = f"depth {rnd.choice([1, 2, 3, 3, 4] if res.tier == 'thorough' else [1, 2, 3])}", True
+            a, d = f"depth {rnd.choice([1, 2, 3, 4, 4, 5] if res.tier == 'thorough' else [1, 2, 3])}", True
         elif k < 0.85:
             a, d = f"nodes {rnd.choice([1, 30, 200, 1000, 4000])}", True
         else:
